@@ -32,7 +32,8 @@ def cases(draw):
     narrow = draw(st.sampled_from([0.1, 0.1, 0.03])) if metric == "vv0.05" else draw(st.sampled_from([1.0, 1.0, 1.0, 0.1]))
     return {"row": {"kernel": draw(st.sampled_from(["tpcn", "rwm"])), "resample": draw(st.sampled_from(["mult", "syst"])),
                     "clustering": draw(st.booleans()), "metric": metric, 
-                    "mode": draw(st.sampled_from(["vector", "scalar", "blobs"])), "zero": draw(st.booleans()), "d": draw(st.integers(1, 3))},
+                    "mode": draw(st.sampled_from(["vector", "scalar", "blobs"])), "zero": draw(st.booleans()), "d": draw(st.integers(1, 3)),
+                    "boundary": draw(st.sampled_from(["none", "none", "periodic", "reflective"]))},
             "c": sign * 10.0 ** draw(st.floats(-3.0, 3.0)), "seed": draw(st.integers(0, 2**31 - 3)), "narrow": narrow}
 
 
@@ -43,7 +44,7 @@ def one_run(row, seed, shift, narrow=1.0):
     spec["shift"] = shift
     t = Target.from_spec(spec)
     np.random.seed(seed)
-    s = make_sampler(t, row_to_cfg(row, d))
+    s = make_sampler(t, row_to_cfg(row, d, seed))
     with quiet():
         lib_call(s.run, n_total=96, progress=False, what=f"Sampler.run (logL{'+c' if shift else ''})")
     st_ = s.state
